@@ -965,8 +965,8 @@ def coverage(results, tier):
     return {
         "distinct_nontrivial": len(abstract),
         "rule": "one case = one seeded history (zoo configuration incl. surface-option combination, derivative mode, 2-4 admissible "
-                "points drawn independently / as siblings / nearby, 2-5 visits (up to 12 in thorough) of set_point,[scribble],[abort],"
-                "run_model,[run_driver], burst of {linearize,compute_totals,check_partials,check_totals}) "
+                "points drawn independently / as siblings / nearby / as special-value toggles, 2-5 visits (up to 12 in thorough) of "
+                "set_point,[scribble],[abort],[disk fault],run_model,[run_driver], burst of {linearize,compute_totals,check_partials,check_totals}) "
                 "on one live Problem, compared op by op with a fresh Problem evaluated once; distinct = distinct hash of "
                 "(spec, abstract op sequence with point indices / fault kinds); non-trivial = >=2 completed run_model at "
                 ">=2 distinct points and >=1 linearisation",
@@ -983,6 +983,8 @@ def coverage(results, tier):
         "component_classes_exercised_count": len(comp),
         "real_vs_stub": {
             "real": "all of openaerostruct.*; OpenMDAO (two in-process patches, sim/omdao_patch.py); numpy/scipy; ScipyOptimizeDriver/SLSQP in run_driver ops",
-            "stub": "report/recorder file output switched off (OPENMDAO_REPORTS=0); no other stubs",
+            "stub": "report/recorder file output switched off (OPENMDAO_REPORTS=0); the disk under the MPhys contour writer is "
+                    "simulated in memory (sim/simdisk.py) with ENOENT / EACCES / ENOSPC faults; LiftDistribution cannot run under the "
+                    "installed numpy (np.trapz) and is not part of any model; no other stubs",
         },
     }
